@@ -255,7 +255,7 @@ _c16 = dict(functions=["java::parse_obfuscated_bytecode_signature", "java::java_
 H("C16", "java", "c16_tokenizer_len3", timeout=900, what="all `(`+2 characters", vars="2 characters", bound="3-character strings", **_c16)
 H("C16", "java", "c16_tokenizer_len4", timeout=900, what="all `(`+3 characters", vars="3 characters", bound="4-character strings", **_c16)
 H("C16", "java", "c16_tokenizer_len5", timeout=1200, what="all `(`+4 characters", vars="4 characters", bound="5-character strings", **_c16)
-H("C16", "java", "c16_tokenizer_utf8_names", timeout=1500, what="`(L`+2 bytes+`;`+1 byte+`)V` incl. a 2-byte character in the class name: count and return slice", vars="3 bytes", bound="8-byte strings of that shape", **_c16)
+H("C16", "java", "c16_tokenizer_utf8_names", tier="thorough", timeout=3600, what="`(L`+2 bytes+`;`+1 byte+`)V` incl. a 2-byte character in the class name: count and return slice", vars="3 bytes", bound="8-byte strings of that shape", **_c16)
 H("C16", "java", "c16_tokenizer_len6", tier="thorough", timeout=3600, what="all `(`+5 characters", vars="5 characters", bound="6-character strings", **_c16)
 
 # --------------------------------------------------------------------------- C19
@@ -282,9 +282,9 @@ PROPS["C05"] = dict(
 )
 _c05 = dict(functions=["mapping::parse_proguard_record", "ProguardRecord::try_parse", "parse_proguard_header", "parse_proguard_field_or_method", "parse_proguard_class", "parse_usize", "parse_prefix", "parse_until*"],
             stubs=["core::str::from_utf8 -> from_utf8_model", "char::is_numeric -> is_numeric_model", "memchr/memrchr -> byte loops"], vars="identifier characters and digits of every hole", bound="one line")
-for _n, _t in [("class", "quick"), ("header_k", "quick"), ("class_crlf", "thorough"), ("header_kv", "thorough"), ("header_sourcefile", "thorough"), ("field", "thorough"), ("field_lf", "thorough"),
+for _n, _t in [("class", "thorough"), ("header_k", "quick"), ("class_crlf", "thorough"), ("header_kv", "thorough"), ("header_sourcefile", "thorough"), ("field", "thorough"), ("field_lf", "thorough"),
                ("method_plain", "thorough"), ("method_noargs_class", "thorough"), ("method_range", "thorough"), ("method_range_os", "thorough"), ("method_range_os_oe", "thorough"), ("method_norange_os", "thorough"),
-               ("bad_unspaced_arrow", "quick"), ("bad_class_no_colon", "thorough"), ("bad_indent2", "thorough"), ("bad_start_without_end", "thorough"), ("bad_no_type", "thorough"), ("bad_no_arrow", "thorough")]:
+               ("bad_unspaced_arrow", "thorough"), ("bad_class_no_colon", "thorough"), ("bad_indent2", "thorough"), ("bad_start_without_end", "thorough"), ("bad_no_type", "thorough"), ("bad_no_arrow", "thorough")]:
     H("C05", "mapping", "c05_" + _n, tier=_t, timeout=3000, what="template " + _n, **_c05)
 H("C05", "mapping", "c05_parse_usize_20", tier="thorough", timeout=3000, what="parse_usize on 1..20 symbolic digits: exact value or error on overflow", vars="20 digits, count", bound="<=20 digits",
   functions=["mapping::parse_usize"], stubs=["core::str::from_utf8 -> from_utf8_model", "char::is_numeric -> is_numeric_model"])
